@@ -948,6 +948,22 @@ func (ce *cenv) pseudo(name string, x *ast.CallExpr) (Val, bool) {
 	case "held": // held(mu)
 		p := ce.evalAddr(x.Args[0])
 		return ex.load(ce.st, p), true
+	case "ref": // ref(x): the object reference of a pointer or of the payload of an interface value
+		v := arg(0)
+		if _, ok := v.T.Underlying().(*types.Interface); ok {
+			return intVal(v.L[1]), true
+		}
+		return intVal(v.L[0]), true
+	case "forallint": // forallint(h, body): unbounded integer quantifier (for ghost maps keyed by references)
+		id := x.Args[0].(*ast.Ident)
+		*ce.nq++
+		bv := fmt.Sprintf("%s!q%d_%d", id.Name, ex.nfresh, *ce.nq)
+		ex.nfresh++
+		rec := &qRecord{seen: map[string]bool{}}
+		ex.qrec[bv] = rec
+		body := ex.pureScope(func() string { return ce.with(id.Name, intVal(bv)).eval(x.Args[1]).L[0] })
+		delete(ex.qrec, bv)
+		return boolVal(orientQuant("forall", bv, "true", body, rec)), true
 	case "sameip": // sameip(a, b): same address bytes and family (zones are not on the wire)
 		a, b := arg(0), arg(1)
 		return boolVal(and(eq(a.L[0], b.L[0]), eq(a.L[1], b.L[1]), eq(eq(a.L[2], "4"), eq(b.L[2], "4")), eq(eq(a.L[2], "0"), eq(b.L[2], "0")))), true
@@ -982,7 +998,11 @@ func (ce *cenv) pseudo(name string, x *ast.CallExpr) (Val, bool) {
 		a := arg(0)
 		t := a.L[0]
 		for i := 1; i < len(x.Args); i++ {
-			t = app("select", t, arg(i).L[0])
+			idx := arg(i).L[0]
+			t = app("select", t, idx)
+			if rec, ok := ex.qrec[idx]; ok && i == len(x.Args)-1 {
+				rec.pats = append(rec.pats, t)
+			}
 		}
 		return boolVal(t), true
 	case "calls": // calls(f): how many times the function-typed parameter f has been called
